@@ -1130,7 +1130,11 @@ func (bc *Blockchain) resetStateInternal(height uint32, stage stateChangeStage) 
 		p = time.Now()
 		var mode = mpt.ModeAll
 		if bc.config.RemoveUntraceableBlocks {
-			mode |= mpt.ModeGCFlag
+			// Nodes are stored with reference counters in this mode, and the
+			// state being reset to consists mostly of inactive nodes (the ones the
+			// latest state no longer references, the old root first of all), they
+			// must not be filtered out (see also GetTestHistoricVM).
+			mode = mpt.ModeLatest
 		}
 		trieStore := mpt.NewTrieStore(sr.Root, mode, upperCache.Store)
 		oldStoragePrefix := v.StoragePrefix
